@@ -1314,6 +1314,13 @@ def swift_closure(ir, nm, outputs, decls_by_key, alias_names=()):
     """outputs: {key: tokens by file}. -> list of (what, sig, detail)"""
     out = []
     causes = leak_causes(ir, alias_names, nm.s_class)
+    # `swift_client._get_route_args`: a union argument is printed with the namespace of the ROUTE
+    foreign_union = set()
+    for ns in ir.nss:
+        for r in ns['routes']:
+            a = r['arg']
+            if a[0] == 'user' and a[1] != ns['name'] and ir.types.get((a[1], a[2]), {}).get('kind') == 'union':
+                foreign_union.add(nm.s_class(ns['name']) + '.' + nm.s_class(a[2]))
     builtin = builtin_names('swift')
     top = set()
     inside = collections.defaultdict(set)          # top-level class -> names declared anywhere inside
@@ -1374,7 +1381,8 @@ def swift_closure(ir, nm, outputs, decls_by_key, alias_names=()):
                         if not ok and (A, t.text) not in reported:
                             reported.add((A, t.text))
                             out.append((what, {'oracle': 'closure', 'lang': 'swift', 'backend': key, 'kind': what,
-                                               'cause': _cause(causes, t.text)},
+                                               'cause': 'route-arg-union-of-other-namespace'
+                                               if (A + '.' + t.text) in foreign_union else _cause(causes, t.text)},
                                         {'name': A + '.' + t.text, 'file': rel, 'line': t.line, 'col': t.col}))
                     continue
                 if not _CAP.match(t.text):
